@@ -47,6 +47,7 @@ class Spec:
         self.emit_bias = emit_bias
         self.all_kinds = False
         self.extra_cases = None         # callable(rng, tier) -> [(grammar, input)] appended to the random stream
+        self.deep = None                # callable(tier) -> [descriptor]; impl-only runs (too deep / long for the model's fuel)
 
     @staticmethod
     def inp_for_kind(ik, inp):
@@ -249,7 +250,9 @@ SPECS = {
                 nontrivial=lambda g, inp: len(inp) >= 2,
                 rule="guarded recursive grammars (recursive() and Recursive::declare/define; nested delimiters, right recursion, recursion under "
                      "repetition, mutually recursive pairs, recursion through map/labelled), inputs nested to sampled depths 0..4 then mutated; "
-                     "plus impl-only runs nested 2*10^5 deep (thorough: 10^6); non-trivial = input of >= 2 tokens"),
+                     "plus implementation-only runs (beyond the model's fuel; expected verdict known by construction) nested 2*10^5 deep (thorough: 10^6) through "
+                     "recursive(), declare/define and mutually recursive pairs of either, well-formed and with one closer missing, parse and check; "
+                     "non-trivial = input of >= 2 tokens"),
     "C15": Spec("C15", CORE + ITER + CTX * 5 + ["MapWith"], obs_vv, ekinds=("rich",),
                 nontrivial=lambda g, inp: len(inp) > 0 and has_head(g, set(CTX)),
                 rule="C01/C02 grammars with with_ctx / ignore_with_ctx / then_with_ctx / map_ctx providers, configure()d just and "
@@ -264,7 +267,9 @@ SPECS = {
     "C20": Spec("C20", CORE + SPANS + ITER + EMIT + RECOVER + DECOR + CTX, lambda r: (r.kind,), ekinds=("rich", "empty", "cheap", "simple"),
                 ikinds=("str", "slice"), nontrivial=lambda g, inp: True,
                 rule="grammars over every modelled constructor (repetition items and skip parsers syntactically consuming), "
-                     "all error types; observable = the verdict class (OK / FAIL / PANIC / TIMEOUT)"),
+                     "all error types; observable = the verdict class (OK / FAIL / PANIC / TIMEOUT); plus implementation-only runs with the verdict known by "
+                     "construction: chains of 3*10^4 (thorough: 3*10^5) right-/left-associative infix, prefix and postfix Pratt operators, nesting 6*10^4 deep through "
+                     "recursive / declare-define / mutual recursion, flat repetitions of 3*10^5 tokens (a crash or hang of the worker counts as a violation)"),
 }
 
 SPECS["C19"] = Spec("C19", CORE + ["Map"] * 6 + ITER + ["CollectExactly"] * 3 + ["GroupArr"] * 5 + ["Group"] * 2 + RECOVER + EMIT, obs_full, sem_obs=obs_vv_emis_last,
@@ -295,5 +300,72 @@ SPECS["C16"] = Spec("C16", CORE + ITER + EMIT + ["RecoverVia"] + ["NestedIn"] * 
                          "sampled trees, ill-formed inner sequences (mutations inside groups), a leaf where a group is expected, truncated / extended, random "
                          "trees; the machine's inner parse is the machine itself on the group's children (coq/Model/Nested.v); "
                          "non-trivial = a nested_in node in the grammar and a group token in the input")
+# ----------------------------------------------------------------------------------------------
+# impl-only runs: nesting / chains far beyond the model's fuel. The expected verdict is known by construction.
+# ----------------------------------------------------------------------------------------------
+def deep_case(d):
+    """descriptor dict(family, n, mode, broken) -> (grammar, input, expected verdict). Outputs are flat (Ignored / check
+    mode) so that dropping the harness's own result value cannot recurse."""
+    fam, n, broken = d["family"], d["n"], d.get("broken", False)
+    O, Cc, SO, SC = 40, 41, 91, 93
+    nest = lambda R: ["Ignored", [R, ["Or", ["Ignored", ["Then", ["Just", [O]], ["Then", ["Var", 0], ["Just", [Cc]]]]], ["Ignored", "Empty"]]]]
+    if fam in ("rec_nest", "decl_nest"):
+        g = nest("Rec" if fam == "rec_nest" else "RecDecl")
+        inp = [O] * n + [Cc] * (n - 1 if broken else n)
+    elif fam in ("mutual_decl", "mutual_rec"):
+        # round = '(' square ')' | empty ; square = '[' round ']' | empty
+        R = "RecDecl" if fam == "mutual_decl" else "Rec"
+        sq = [R, ["Or", ["Ignored", ["Then", ["Just", [SO]], ["Then", ["Var", 1], ["Just", [SC]]]]], ["Ignored", "Empty"]]]
+        g = ["Ignored", [R, ["Or", ["Ignored", ["Then", ["Just", [O]], ["Then", sq, ["Just", [Cc]]]]], ["Ignored", "Empty"]]]]
+        h = n // 2
+        inp = [O, SO] * h + [SC, Cc] * h
+        if broken: inp = inp[:-1]
+    elif fam == "right_rec":
+        # list = a (',' list)?   (right recursion, one level per element)
+        g = ["Ignored", ["RecDecl" if d.get("decl") else "Rec", ["Ignored", ["Then", ["Just", [A]], ["OrNot", ["IgnoreThen", ["Just", [COMMA]], ["Var", 0]]]]]]]
+        inp = ([A, COMMA] * n)[:-1] + ([COMMA] if broken else [])
+    elif fam in ("pratt_right", "pratt_left", "pratt_prefix", "pratt_postfix"):
+        atom = ["Just", [A]]
+        ops = {"pratt_right": [["PInfix", 1, 2, ["Just", [94]], 1]], "pratt_left": [["PInfix", 0, 1, ["Just", [43]], 1]],
+               "pratt_prefix": [["PPrefix", 3, ["Just", [45]], 2]], "pratt_postfix": [["PPostfix", 3, ["Just", [33]], 2]]}[fam]
+        g = ["Pratt", d.get("table", "tuple"), atom, ops]
+        if fam == "pratt_right": inp = ([A, 94] * n) + [A]
+        elif fam == "pratt_left": inp = ([A, 43] * n) + [A]
+        elif fam == "pratt_prefix": inp = [45] * n + [A]
+        else: inp = [A] + [33] * n
+        if broken: inp = inp + [94 if fam == "pratt_right" else 43 if fam == "pratt_left" else 45]
+    elif fam == "flat_rep":
+        g = ["Then", ["RepUnit", ["IRep", ["Or", ["Then", ["Just", [A]], ["Just", [B]]], ["Just", [A]]], 0, "inf"]], "End"]
+        inp = [A, B, A] * (n // 3) + ([C] if broken else [])
+    else:
+        raise AssertionError(fam)
+    return g, inp, ("FAIL" if broken else "OK")
+
+def c12_deep(tier):
+    n = 200000 if tier == "quick" else 1000000
+    out = []
+    for fam in ("rec_nest", "decl_nest", "mutual_decl", "mutual_rec"):
+        for mode in ("parse", "check"):
+            out.append(dict(family=fam, n=n, mode=mode))
+        out.append(dict(family=fam, n=n // 2, mode="parse", broken=True))
+    out.append(dict(family="right_rec", n=n // 2, mode="parse"))
+    out.append(dict(family="right_rec", n=n // 2, mode="check", decl=True))
+    return out
+
+def c20_deep(tier):
+    n = 30000 if tier == "quick" else 300000
+    out = []
+    for fam in ("pratt_right", "pratt_left", "pratt_prefix", "pratt_postfix"):
+        out.append(dict(family=fam, n=n, mode="check"))
+        out.append(dict(family=fam, n=n // 3, mode="check", broken=True))
+    for fam in ("rec_nest", "decl_nest", "mutual_decl"):
+        out.append(dict(family=fam, n=n * 2, mode="check"))
+        out.append(dict(family=fam, n=n, mode="parse", broken=True))
+    out.append(dict(family="flat_rep", n=n * 10, mode="parse"))
+    out.append(dict(family="flat_rep", n=n * 10, mode="check", broken=True))
+    return out
+
+SPECS["C12"].deep = c12_deep
+SPECS["C20"].deep = c20_deep
 SPECS["C10"].all_kinds = True
 SPECS["C10"].extra_cases = c10_long
